@@ -139,3 +139,8 @@ PROPS.update({
             "assumptions": ["operations are given plain data: handing a Value or Row of one row to another (SetValue(k, other.GetValue(k2))) is explicit sharing, excluded and shown to interfere by Example C15_sharing_is_explicit",
                             "sharing below the top level of a row (nested rows inside Auto cells) is outside the model, as the property restricts clones to top-level modification"]},
 })
+
+# C01 is judged on every stream that writes lines: parsed rows (json), templated rows incl. leading hidden
+# columns and long lines (template), and whole Stream() runs (stream)
+PROPS["C01"]["streams"] = [{"name": "json"}, {"name": "template"}, {"name": "stream"}]
+PROPS["C01"]["rule"] = PROPS["C01"]["rule"] + " ++ " + TEMPLATE_RULE + " ++ the stream stream of C07/C08 (every Write recorded separately)"
